@@ -182,7 +182,15 @@ def scenarios(rng, tier):
         scn['refuse'] = sorted([rng.randint(0, 9), rng.choice('uuue')] for _ in range(rng.choice([0, 1, 1, 2, 3])))
         scn['refuse'] = [r for j, r in enumerate(scn['refuse']) if j == 0 or r[0] != scn['refuse'][j - 1][0]]
         yield scn
-    # 5. constructor checks
+    # 5. constructor arguments: Repeat(...) directly and through Event(..., repeat=, count=)
+    for via in 'RE':
+        for ety in (['s', 'put'], ['s', 'go'], ['s', ''], ['C'], ['T'], ['O']):
+            for iv in (None, 0, -1, 1, 2.5, 0.25, '1m', '2m30s', '1.5s', '0s', 'bogus', [1], '-'):
+                if iv == '-' and via == 'R':
+                    continue
+                for cnt in (None, 0, 3, -1):
+                    yield {'ctor2': True, 'via': via, 'ety': ety, 'iv': iv, 'cnt': cnt}
+    # 6. constructor checks (interval / count in microseconds as the model's Cfg.make? sees them)
     for iv, cnt in [(0, None), (-I0, 3), (I0, -1), (I0, -3), (0, -1)]:
         yield {'kind': 'explicit', 'etype': 'put', 'interval': iv, 'count': cnt, 'ops': [], 'tail': 1, 'ctor': True}
 
@@ -306,7 +314,112 @@ def received_data(src, seq, extra, sender_name):
     return data
 
 
+def run_ctor2(scn):
+    """construct a Repeat block / an Event with repeat= and report what was stored or which exception was raised"""
+    from fractions import Fraction
+    edzed.reset_circuit()
+    probe = TProbe('p', timeline=[], outs=lambda: [])
+    kind = scn['ety'][0]
+    ety = {'s': lambda: scn['ety'][1], 'C': lambda: edzed.EventCond('a', 'b'), 'T': lambda: edzed.Goto('x'),
+           'O': lambda: 5}[kind]()
+    ety_tok = hexs(scn['ety'][1]) if kind == 's' else kind
+    iv = scn['iv']
+    ivv = tuple(iv) if isinstance(iv, list) else iv
+    iv_tok = '-' if iv == '-' else ('l[' + ','.join(enc_data({'x': x})[4:-1] for x in iv) + ']' if isinstance(iv, list)
+                                    else enc_data({'x': iv})[4:-1])
+    cnt = scn['cnt']
+    line = f"repeat ctor {scn['via']} {ety_tok} {iv_tok} {'n' if cnt is None else cnt}"
+    obs = {}
+    try:
+        if scn['via'] == 'R':
+            blk = edzed.Repeat('r', dest=probe, etype=ety, interval=list(iv) if isinstance(iv, list) else iv, count=cnt)
+            ev = None
+        else:
+            kw = {} if iv == '-' else {'repeat': list(iv) if isinstance(iv, list) else iv}
+            ev = edzed.Event(probe, ety, count=cnt, **kw)
+            blk = ev._dest if isinstance(ev._dest, edzed.Repeat) else None
+        if blk is not None:
+            f = Fraction(blk._interval)
+            obs = {'interval': [f.numerator, f.denominator], 'count': blk._count,
+                   'fwd_dest_ok': blk._repeated_event._dest is probe, 'fwd_etype_ok': blk._repeated_event._etype == ety,
+                   'nofilters': blk._repeated_event._filters == ()}
+            stored = f"{f.numerator}/{f.denominator} {'n' if blk._count is None else blk._count}"
+        if ev is None:
+            trace = 'ok ' + stored
+        elif blk is None:
+            obs['plain'] = ev._dest is probe
+            trace = 'ok plain' if ev._dest is probe and ev._etype == ety else 'ok misdirected'
+        else:
+            good = obs['fwd_dest_ok'] and obs['fwd_etype_ok'] and ev._etype == ety
+            trace = 'ok repeat ' + stored if good else 'ok misdirected'
+        obs['ok'] = True
+    except (ValueError, TypeError) as err:
+        obs = {'ok': False, 'exc': type(err).__name__}
+        trace = 'err ' + type(err).__name__
+    return {'lines': [line], 'trace': [trace], 'tags': [f"ctor-{scn['via']}-{'ok' if obs.get('ok') else obs.get('exc')}"],
+            'nontrivial': True, 'ctor2': obs}
+
+
+def oracle_ctor2(scn, res):
+    """the documented argument rules (docs/sblocks1.rst Repeat, docs/events.rst Event): which calls are refused,
+    and that an accepted Event(..., repeat=) creates a Repeat that forwards to the original destination"""
+    obs = res['ctor2']
+    kind, iv, cnt, via = scn['ety'][0], scn['iv'], scn['cnt'], scn['via']
+    secs = {'1m': 60, '2m30s': 150, '1.5s': 1.5, '0s': 0}
+    reasons = set()
+    if kind == 'C' and (via == 'R' or iv not in ('-', None)):
+        reasons.add('ValueError')          # an EventCond cannot be repeated
+    if kind == 's' and scn['ety'][1] == '':
+        reasons.add('ValueError')          # an event name must be a non-empty string
+    if kind == 'O':
+        reasons.add('TypeError')           # neither a string nor an EventType
+    if iv == '-':
+        if cnt is not None:
+            reasons.add('ValueError')      # count is valid only with repeat
+        value = None
+    else:
+        if isinstance(iv, list):
+            reasons.add('TypeError')
+            value = None
+        elif iv is None:
+            if via == 'E':
+                value = None               # repeat=None: no repetition requested
+                if cnt is not None:
+                    reasons.add('ValueError')
+            else:
+                reasons.add('ValueError')  # interval must be positive
+                value = None
+        else:
+            value = secs.get(iv, iv)
+            if value == 'bogus' or value <= 0:
+                reasons.add('ValueError')
+        if cnt is not None and cnt < 0 and not (via == 'E' and iv is None):
+            reasons.add('ValueError')
+    if reasons:
+        if obs.get('ok') or obs.get('exc') not in reasons:
+            return [{'clause': 'constructor_checks',
+                     'what': f"{scn}: expected one of {sorted(reasons)}, got {obs}"}]
+        return []
+    if not obs.get('ok'):
+        return [{'clause': 'constructor_checks', 'what': f"{scn}: refused with {obs.get('exc')}"}]
+    if via == 'E' and (iv == '-' or iv is None):
+        if not obs.get('plain'):
+            return [{'clause': 'implicit_repeat_created_as_specified', 'what': f"{scn}: a plain event expected, got {obs}"}]
+        return []
+    from fractions import Fraction
+    want = Fraction(value)
+    if Fraction(*obs['interval']) != want or obs['count'] != cnt:
+        return [{'clause': 'implicit_repeat_created_as_specified' if via == 'E' else 'constructor_checks',
+                 'what': f"{scn}: interval/count stored {obs['interval']}, {obs['count']}; expected {want}, {cnt}"}]
+    if not (obs['fwd_dest_ok'] and obs['fwd_etype_ok']):
+        return [{'clause': 'implicit_repeat_created_as_specified',
+                 'what': f"{scn}: the Repeat block does not forward to the original destination / type: {obs}"}]
+    return []
+
+
 def run_impl(scn):
+    if scn.get('ctor2'):
+        return run_ctor2(scn)
     iv, count, etype = scn['interval'], scn['count'], scn['etype']
     chain = bool(scn.get('chain'))
     lines, trace = [], []
@@ -725,6 +838,8 @@ def oracle_single(scn, res):
 
 
 def oracle(scn, res):
+    if scn.get('ctor2'):
+        return oracle_ctor2(scn, res)
     if scn.get('ctor'):
         if not res.get('ctor_error'):
             return [{'clause': 'constructor_checks', 'what': f"interval={scn['interval']} count={scn['count']} accepted"}]
